@@ -744,7 +744,7 @@ Proof.
     unfold cost_s, sum_abs_diff. lia.
 Qed.
 
-(* ---- E: the variable bounds admit every attainable value ------------------------------------- *)
+(* ---- E: the variable bounds allow every attainable value ------------------------------------- *)
 
 Lemma sum_nonneg : forall A (f : A -> Z) l, (forall x, In x l -> 0 <= f x) -> 0 <= sumZ (map f l).
 Proof.
